@@ -61,14 +61,14 @@ let c16_update body =
         (bool_s (moves_same_len f)) (bool_s (List.for_all attr_ordered attrs))
   | _ -> failwith "c16-update: bad case"
 
-(* in: SEGS SUBST MOVES ATTRS AUTHOR TS      out: (tr ..) (mg ..) *)
+(* in: SEGS SUBST MOVES ATTRS AUTHOR TS      out: (tr ..) (mg ..) (mok b) *)
 let c16_transform body =
   match parse_many body with
   | [s; u; m; a; au; ts] ->
       let f = facts_of s u m in
       let tr = transform f (sort4 (attrs_of a)) (str_of au) (nn ts) in
       let mg = match tr with Ok l -> Some (show_attrs (merge l)) | Panic -> None in
-      Printf.sprintf "%s %s" (tagged "tr" (res_attrs tr)) (tagged "mg" mg)
+      Printf.sprintf "%s %s (mok %s)" (tagged "tr" (res_attrs tr)) (tagged "mg" mg) (bool_s (moves_ok f))
   | _ -> failwith "c16-transform: bad case"
 
 (* in: CONTENT ATTRS      out: (lines ..) *)
